@@ -49,7 +49,10 @@ RULE_ADDED = (
               ' '
               'Round 16: on SGX, a repair that goes through the unlock dialogue with the echo /'
               " unlock exchange answered by in-range status words (incl. the SGX system layer's"
-              ' own). ')
+              ' own). '
+              ' '
+              'Round 17: opcodes the command does not have whose bits contain those of a succes'
+              's opcode, carrying well-formed data. ')
 RULE = RULE + " " + RULE_ADDED.strip()
 ASSUMPTIONS = [
     "simulated device + fake HID transport trusted; injected status words carry no data "
@@ -383,9 +386,13 @@ def check_repair_cell(acc, shape, k, sw, allowed):
         return bad("success-despite-sw:%s:repair-bring-up:%s" % (shape.command, step))
 
 
-FAMILY_OPCODES = {"adv": [0x02, 0x03, 0x04, 0x05, 0x06, 0x07, 0x08, 0x09],
-                  "upd": [0x02, 0x03, 0x04, 0x05, 0x06],
-                  "sign": [0x01, 0x02, 0x04, 0x08, 0x81]}
+# (the command's own opcodes, and opcodes it does not have whose bits contain / resemble
+# those of a success opcode: 0x81 -> 0x83, 0xc3, 0xff ...; 0x05 / 0x06 -> 0x0d, 0x15, 0x85 ...)
+FAMILY_OPCODES = {"adv": [0x02, 0x03, 0x04, 0x05, 0x06, 0x07, 0x08, 0x09,
+                          0x0d, 0x0e, 0x15, 0x16, 0x85, 0x86, 0xff],
+                  "upd": [0x02, 0x03, 0x04, 0x05, 0x06, 0x07, 0x0d, 0x15, 0x85, 0x86, 0xff],
+                  "sign": [0x01, 0x02, 0x04, 0x08, 0x81, 0x80, 0x83, 0x85, 0x89, 0x91, 0xc3,
+                           0xff]}
 SUCCESS_OPCODES = {"adv": (0x05, 0x06), "upd": (0x05, 0x06), "sign": (0x81,)}
 
 
